@@ -50,7 +50,14 @@ class C08(InvProp):
         return scn
 
     def oracle(self, scn, out, c):
-        return inv.c08(scn, out, out.tables, c, rn=inv.rnorms(out))
+        viol = inv.c08(scn, out, out.tables, c, rn=inv.rnorms(out))
+        if not viol and scn.get('leaks'):
+            # "... and it is part of the node's mass balance": the junction / tank balance of C01 with the reported leak demand in it
+            c2 = {}
+            for x in inv.c01(scn, out.tables, c2, rn=inv.rnorms(out)):
+                if x['oracle'] in ('c01.junction_balance', 'c01.source_balance'):
+                    viol.append(V('c08.leak_not_in_mass_balance', x['sig'], x['detail']))
+        return viol
 
     def nontrivial(self, scn, out, c):
         return c.get('c08.active_rows', 0) > 0
